@@ -27,6 +27,16 @@ def make(i, tier):
     rng = random.Random(seed)
     cfg = E.swarm_config(rng, POLICIES, ttls=(600, 3600), max_nodes=1, transports=("asyncio", "asyncio", "blocking"))
     scn, models, skipped = E.gen_multi(rng, FAMILIES, tier, 4, cfg)
+    if rng.random() < 0.15:
+        # a Task whose function has no queue: the mandatory request comes back as Basic.Return - not a delivery, so
+        # nothing may be acknowledged for it - and fails the Task (caught here), beside the other executions
+        scn["machines"]["unroutable"] = {"type": rng.choice(["STANDARD", "EXPRESS"]), "family": "unroutable-request", "definition": {
+            "StartAt": "T", "States": {
+                "T": {"Type": "Task", "Resource": E.GM.FN_ARN + "nobody-listens", "TimeoutSeconds": 5,
+                      "Catch": [{"ErrorEquals": ["States.ALL"], "ResultPath": "$.err", "Next": "H"}], "End": True},
+                "H": {"Type": "Pass", "End": True}}}}
+        scn["executions"].append({"machine": "unroutable", "input": {"k": 1}, "name": "u1", "at": rng.choice([0.0, 0.5, 1.0]),
+                                  "node": 0})
     # uninterpretable messages (events and task replies) arriving while other executions' events are held
     scn["poison"] = [{"at": rng.choice([0.0, 0.3, 0.8, 1.2, 2.5]), "to": rng.choice(["shared", "instance", "reply"]),
                       "body": rng.choice(["not json", "", "5", '{"context": 5}', "[]", '{"data": {}, "context": {}}'])}
@@ -70,6 +80,9 @@ def check(scn, seed, models=None, skipped=None):
             probes["single-branch-failure"] = probes.get("single-branch-failure", 0) + 1
     probes["executions"] = len(scn["executions"])
     probes["poison-messages"] = len(scn.get("poison") or [])
+    if "unroutable" in scn["machines"]:
+        probes["unroutable-task-request"] = 1
+        probes["unroutable-task-request:ended"] = 1 if res.world.terminal_events().get(E.EX_ARN % ("unroutable", "u1")) else 0
     probes["carrier-evaluations"] = mons[1].ops_checked
     probes["policy:" + scn["config"]["policy"] + "/" + str(scn["config"]["latency"])] = 1
     if res.sim.errors:
